@@ -43,41 +43,55 @@ func init() {
 		backing := make([]byte, len(prefix), len(prefix)+spare)
 		copy(backing, prefix)
 		caller := backing[:len(prefix):len(prefix)+spare] // the caller's own view of its bytes
-		var call func(buf []byte) ([]byte, error)
+		var call, other func(buf []byte) ([]byte, error) // other: the same formatter on a different value
 		switch str(e["pkg"]) {
 		case "date":
 			v := mkDate(e["val"])
 			call = func(buf []byte) ([]byte, error) { return date.DefaultFormatter(buf, v, date.Format(flags)) }
+			other = func(buf []byte) ([]byte, error) { return date.DefaultFormatter(buf, v.Add(1, 1, 1), date.Format(flags)) }
 		case "roman":
 			v := roman.Number(num(e["val"]))
 			call = func(buf []byte) ([]byte, error) { return roman.DefaultFormatter(buf, v, roman.Format(flags)) }
+			other = func(buf []byte) ([]byte, error) { return roman.DefaultFormatter(buf, v+1234, roman.Format(flags)) }
 		case "sem":
 			v := mkVer(e["val"])
 			call = func(buf []byte) ([]byte, error) { return sem.DefaultFormatter(buf, v, sem.Format(flags)) }
+			other = func(buf []byte) ([]byte, error) {
+				return sem.DefaultFormatter(buf, sem.Ver{Major: v.Major / 2, Minor: 5, PreRelease: "o"}, sem.Format(flags))
+			}
 		case "size":
 			v := size.Size(fromDig(e["val"]))
 			call = func(buf []byte) ([]byte, error) { return size.DefaultFormatter(buf, v, size.Format(flags)) }
+			other = func(buf []byte) ([]byte, error) { return size.DefaultFormatter(buf, v/3+777, size.Format(flags)) }
 		case "uu":
 			v := mkID(e["val"])
 			call = func(buf []byte) ([]byte, error) { return uu.DefaultFormatter(buf, v, uu.Format(flags)) }
+			other = func(buf []byte) ([]byte, error) {
+				return uu.DefaultFormatter(buf, uu.ID{Higher: ^v.Higher, Lower: v.Lower + 1}, uu.Format(flags))
+			}
 		default:
 			fatal("fmt.append pkg")
 		}
-		nilout, err1 := call(nil)
+		// the reference: the bytes produced on an empty buffer (copied, then another value is
+		// formatted so that nothing the formatter may remember refers to this value any more)
+		ref, err1 := call(nil)
+		nilout := append([]byte(nil), ref...)
+		_, _ = other(make([]byte, 0, 8))
 		out, err2 := call(caller)
 		e["ok"] = err1 == nil && err2 == nil
 		e["nilout"], e["out"] = B(nilout), B(out)
 		e["preafter"] = B(backing[:len(prefix)])
+		// buffer reuse, directly after the call above: the returned slice is truncated, refilled
+		// with a longer prefix and used again for the same value
+		p2 := append(append(out[:0], prefix...), "##reuse##"...)
+		want2 := append([]byte(nil), p2...)
+		out2, _ := call(p2)
+		e["reusepre"], e["reuseout"] = B(want2), B(out2)
 		// chained use: the result of one call is the buffer of the next
 		c1, _ := call(nil)
 		c2, _ := call(c1)
 		c3, _ := call(c2)
 		e["chain"] = B(c3)
-		// buffer reuse: the returned slice is truncated, refilled with a longer prefix and used again
-		p2 := append(append(out[:0], prefix...), "##reuse##"...)
-		want2 := append([]byte(nil), p2...)
-		out2, _ := call(p2)
-		e["reusepre"], e["reuseout"] = B(want2), B(out2)
 		return e
 	}
 
